@@ -1,7 +1,7 @@
 #!/bin/bash
 # usage: ingest.sh ID...   (e.g. C08b) : confirm in worktree, copy into /verif/seeded, remove worktree
 for id in "$@"; do
-  /tmp/confirm_seeds.sh $id | tee /tmp/confirm_$id.log
+  bash "$(dirname "$0")/confirm_seeds.sh" $id | tee /tmp/confirm_$id.log
   /venv/bin/python - "$id" <<'PY'
 import json, shutil, os, re, sys
 id_ = sys.argv[1]; pid = id_[:3]
